@@ -34,6 +34,8 @@ def gen(rng, neutral=False):
     kind = None if not neutral else "frame"
     spec = G.gen_spec(rng, neutral=neutral, kind=kind)
     spec["drop_invalid_rows"] = True
+    if spec["kind"] == "frame" and rng.random() < 0.6:
+        spec["dtype"] = None        # frame-level dtype only in a minority of cases
     n = rng.choice([2, 3, 4, 5, 6])
     table = G.gen_table(rng, spec, nrows=n)
     # hidden identity: an undeclared unique index
